@@ -72,13 +72,13 @@ Section Final.
 Variable compress : Z -> list N -> list N.
 Variable decomp : Z -> list N -> option (list N).
 
-Theorem batch_decode_exact_legacy_uncompressed log l o k hwm :
+Theorem batch_decode_exact_legacy_uncompressed_full log l o k hwm :
   log_ok log -> layout_ok log l -> Forall legacy_ok l -> 0 <= o ->
   from_offset l o <> [] -> valid_cut compress l o k -> hwm <> o ->
   forall fuel, (length (all_items (from_offset l o)) + 4 <= fuel)%nat ->
   exists ms f,
     fetch_run decomp fuel o hwm (fetch_response compress l o k) (Z.of_nat k) false = Some (ms, EEOF, f)
-    /\ fetch_ok log o ms f.
+    /\ fetch_ok log o ms f /\ ms <> [].
 Proof.
   intros (Hlog1 & Hlog2) (Hrecs & Hpb & Hranges) Hleg Ho0 Hne Hcut Hhwm fuel Hfuel.
   destruct (from_offset_split l o) as (pre & Hsplit & Hpre).
@@ -147,22 +147,48 @@ Proof.
       destruct (last_off_in (r1 :: rs1) (pb_base b1 + pb_lod b1) ltac:(discriminate)) as (r0 & Hr0 & He0).
       rewrite <- He0 in Hlast1.
       pose proof (last_off_max _ _ 0 r0 Hinc (in_or_app _ _ r0 (or_introl Hr0))). lia. }
+  (* progress: the first batch is whole and its last record is at or after o *)
+  assert (Hwit : exists r, In r (r1 :: rs1) /\ o <= r_off r).
+  { assert (Hlast1 : o <= pb_last b1).
+    { unfold bs in Ebs. clear -Ebs. induction l as [|b t IH]; [discriminate|].
+      cbn [from_offset] in Ebs. destruct (pb_last b <? o) eqn:E; [apply IH; exact Ebs|].
+      injection Ebs as <- _. lia. }
+    unfold pb_last in Hlast1. replace (pb_fmt b1 =? 2) with false in Hlast1 by lia. rewrite Er1 in Hlast1.
+    destruct (last_off_in (r1 :: rs1) (pb_base b1 + pb_lod b1) ltac:(discriminate)) as (r0 & Hr0 & He0).
+    exists r0. split; [exact Hr0|lia]. }
+  assert (Hfirst : exists it' items' j', lstep o (PIn it1 rest j0) = LDeliver it' items' j').
+  { cbn [lstep]. apply (lg_read_delivers decomp [] o rest it1 j0 (length rs1)).
+    - unfold rest. rewrite firstn_app, firstn_all2 by (rewrite map_length; lia).
+      rewrite map_length, Nat.sub_diag. cbn [firstn]. rewrite app_nil_r.
+      unfold items_of in Hk1. rewrite Er1 in Hk1. cbn [map] in Hk1.
+      change (stream ((pb_fmt b1, r1) :: map (fun r => (pb_fmt b1, r)) rs1))
+        with (enc_item it1 ++ stream (map (fun r => (pb_fmt b1, r)) rs1)) in Hk1.
+      unfold enc_item in Hk1. rewrite !app_length in Hk1. unfold j0, len. lia.
+    - unfold rest. rewrite firstn_app, firstn_all2 by (rewrite map_length; lia).
+      rewrite map_length, Nat.sub_diag. cbn [firstn]. rewrite app_nil_r.
+      destruct Hwit as (r & Hr & Hge). exists r. split; [|exact Hge].
+      unfold recs_of. rewrite map_map. cbn [snd]. rewrite map_id. exact Hr. }
+  destruct Hfirst as (itf & itemsf & jf & Hfirst).
   pose proof (run_refine_v1 decomp [] [] o fuel (PIn it1 rest j0) o [] Hpos HI Hcnt) as Href.
   pose proof (l_run_spec decomp [] [] o fuel (PIn it1 rest j0) o [] HI) as Hspec.
-  assert (Hres : exists ms x, batch_run decomp fuel (LB [] o (PIn it1 rest j0) o) [] = Some (ms, EEOF, x)
+  assert (Hne0 : match l_run fuel (PIn it1 rest j0) o [] with
+                 | LDone ms x => ms <> [] | LGo _ _ _ acc' _ => acc' <> [] | LFail => True end).
+  { destruct fuel as [|f0]; [lia|]. apply (l_run_nonempty decomp [] [] o f0 _ o [] itf itemsf jf HI Hfirst). }
+  assert (Hres : exists ms x, batch_run decomp fuel (LB [] o (PIn it1 rest j0) o) [] = Some (ms, EEOF, x) /\ ms <> []
                   /\ exists Rp Rs, pend (PIn it1 rest j0) = Rp ++ Rs /\ ms = mm (filter (fun r => o <=? r_off r) Rp)
                        /\ Forall (fun r => r_off r < x) Rp /\ (forall r, In r Rs -> o <= r_off r -> x <= r_off r) /\ o <= x).
   { destruct (l_run fuel (PIn it1 rest j0) o []) as [ms x|j h off' acc' f'|]; [| |contradiction].
-    - exists ms, x. split; [exact Href|]. destruct Hspec as (Rp & Rs & G1 & G2 & G3 & G4 & G5).
+    - exists ms, x. split; [exact Href|]. split; [exact Hne0|]. destruct Hspec as (Rp & Rs & G1 & G2 & G3 & G4 & G5).
       exists Rp, Rs. cbn [rev app] in G2. rewrite app_nil_r in G4. auto.
     - destruct Href as (Hr1 & Hf' & Hoo & Hjj & _). destruct Hspec as (G1 & G2 & G3 & _).
       destruct f' as [|f2]; [lia|]. rewrite (bnd_nil_done decomp [] o f2 j h off' acc' eq_refl) in Hr1.
       exists (rev acc'), (lfinal off'). split; [exact Hr1|].
+      split; [intros Hn; apply Hne0; destruct acc' as [|a t]; [reflexivity|cbn [rev] in Hn; destruct (rev t); discriminate]|].
       exists (pend (PIn it1 rest j0)), []. rewrite app_nil_r. cbn [rev app] in G1.
       unfold lfinal. replace (off' <=? -1) with false by lia.
       split; [reflexivity|]. split; [exact G1|]. split; [exact G2|]. split; [intros r []|lia]. }
-  destruct Hres as (ms & x & Hrun & Rp & Rs & G1 & G2 & G3 & G4 & G5).
-  exists ms, x. split; [exact Hrun|].
+  destruct Hres as (ms & x & Hrun & Hms & Rp & Rs & G1 & G2 & G3 & G4 & G5).
+  exists ms, x. split; [exact Hrun|]. split; [|exact Hms].
   left. split; [exact G5|]. rewrite G2. unfold mm. f_equal.
   rewrite Hlogsplit. unfold between. rewrite filter_app. rewrite <- Hpend, G1, filter_app.
   rewrite (filter_all_false _ (flat_map pb_recs pre)).
@@ -172,6 +198,33 @@ Proof.
   2:{ apply Forall_forall. intros r Hr. specialize (G4 r Hr). lia. }
   cbn [app]. rewrite app_nil_r. apply filter_ext_in'.
   eapply Forall_impl; [|exact G3]. cbn. intros a Ha. lia.
+Qed.
+
+Theorem batch_decode_exact_legacy_uncompressed log l o k hwm :
+  log_ok log -> layout_ok log l -> Forall legacy_ok l -> 0 <= o ->
+  from_offset l o <> [] -> valid_cut compress l o k -> hwm <> o ->
+  forall fuel, (length (all_items (from_offset l o)) + 4 <= fuel)%nat ->
+  exists ms f,
+    fetch_run decomp fuel o hwm (fetch_response compress l o k) (Z.of_nat k) false = Some (ms, EEOF, f)
+    /\ fetch_ok log o ms f.
+Proof.
+  intros H1 H2 H3 H4 H5 H6 H7 fuel H8.
+  destruct (batch_decode_exact_legacy_uncompressed_full log l o k hwm H1 H2 H3 H4 H5 H6 H7 fuel H8) as (ms & f & Hr & Hok & _).
+  exists ms, f. split; assumption.
+Qed.
+
+(* C02_progress for v0/v1 responses: the first batch is whole and reaches the fetch offset, so
+   at least one message is delivered *)
+Theorem progress_legacy_uncompressed log l o k hwm :
+  log_ok log -> layout_ok log l -> Forall legacy_ok l -> 0 <= o ->
+  from_offset l o <> [] -> valid_cut compress l o k -> hwm <> o ->
+  forall fuel ms e f, (length (all_items (from_offset l o)) + 4 <= fuel)%nat ->
+  fetch_run decomp fuel o hwm (fetch_response compress l o k) (Z.of_nat k) false = Some (ms, e, f) ->
+  ms <> [].
+Proof.
+  intros H1 H2 H3 H4 H5 H6 H7 fuel ms e f H8 Hrun.
+  destruct (batch_decode_exact_legacy_uncompressed_full log l o k hwm H1 H2 H3 H4 H5 H6 H7 fuel H8) as (ms0 & f0 & Hr0 & _ & Hp).
+  rewrite Hr0 in Hrun. injection Hrun as <- _ _. exact Hp.
 Qed.
 
 Theorem contract_legacy_uncompressed log l k hwm fuel g :
